@@ -403,3 +403,12 @@ Proof.
       { induction q as [|y q IHq]; simpl; [lia|]. destruct (resolves y); simpl; lia. }
       specialize (L r). rewrite H in L. simpl in L. lia.
 Qed.
+
+(* ------------------------------------------------------------------ frame compile is idempotent *)
+Lemma frame_compile_idem (parent local pos0 : Z) :
+  frame_compile false parent local (frame_compile false parent local (false, pos0)) = (true, (parent + local)%Z).
+Proof. reflexivity. Qed.
+
+Lemma frame_compile_reset_loses_parent (parent local pos0 : Z) :
+  parent <> 0%Z -> snd (frame_compile true parent local (frame_compile true parent local (false, pos0))) <> (parent + local)%Z.
+Proof. intro H. simpl. lia. Qed.
